@@ -10,7 +10,7 @@ Init == base \in SeqsUpTo(MaxBase) /\ rel \in SeqsUpTo(MaxRel) /\ abs \in BOOLEA
 Next == UNCHANGED vars
 Spec == Init /\ [][Next]_vars
 
-Laws == /\ Idempotent(base, rel, abs) /\ NeverAboveRoot(base, rel, abs)
+Laws == /\ PathIdempotent(base, rel, abs) /\ NeverAboveRoot(base, rel, abs)
         /\ AbsIgnoresBase(base, <<"q">>, rel) /\ DotIsIdentity(base, rel, abs)
 Emit == PrintT(<<"CASE", ToJson([b |-> JoinPath(base), r |-> (IF abs THEN "/" ELSE "") \o JoinPath(rel), x |-> JoinPath(ResolvePath(base, rel, abs))])>>)
 =============================================================================
